@@ -110,6 +110,7 @@ func cmdCheck(args []string) int {
 		writeEvidence(evidencePath, *prop, *tier, seed, levelOf(*prop), nil, nil, nil, nil, nil, time.Since(t0).Seconds(), violations, "load failed: "+err.Error(), nil)
 		return 1
 	}
+	eng.guardIndex() // validates the guarded_by declarations (may add load errors)
 	for _, e := range eng.loadErrs {
 		engineFail("contracts", e)
 	}
